@@ -210,7 +210,7 @@ impl Property for C20 {
         ]
     }
     fn cases(tier: Tier) -> u64 {
-        tier.pick(200_000, 10_000_000)
+        tier.pick(1_200_000, 10_000_000)
     }
     fn strategy(_tier: Tier) -> BoxedStrategy<Spec> {
         prop_oneof![
